@@ -475,8 +475,18 @@ def process_fn(repo, annot_rel, opts, mode, canary, base_variants):
     rec.contract = ' '.join(t.strip() for k, t in toks[:b] if k == 'ann')
     if mode == 'SIG':
         head = toks[:b]
+        # SIG-d10b: the body directive `#[float_est(X)]` (rule D10b) names a `let X = ..;` of the BODY, which a signature
+        # does not have: it is dropped from the contract block of a SIG (exact shape only, logged); the contract is untouched
+        _sd = []
+        _fe = re.compile(r'#\s*\[\s*float_est\s*\(\s*[A-Za-z_][A-Za-z0-9_]*\s*\)\s*\]')
+        for _i, (_k, _t) in enumerate(head):
+            if _k == 'ann' and _fe.search(_t):
+                _sd += _fe.findall(_t)
+                head[_i] = (_k, _fe.sub(' ', _t))
         sp, marks = annot.splice(head)
         lowered, log = lower.lower(sp, marks, {})
+        if _sd:
+            log = ['SIG-d10b body directive dropped from the signature: ' + ', '.join(x.strip() for x in _sd)] + log
         rec.rules = e3log + log
         text = '#[verifier::external_body]\n' + rtok.render(lowered).rstrip() + ' { unimplemented!() }\n'
         return text, rec
